@@ -1210,3 +1210,275 @@ Proof.
     destruct (Nat.eqb (length pu) (length pv)) eqn:EL; cbn [negb]; injection H as <-; [|reflexivity].
     apply Nat.eqb_eq in EL. rewrite (get_pairs c d pu pv W Rc EL). cbn. auto.
 Qed.
+
+(* ------------------------------------------------------------------ __setitem__ *)
+Definition set0v (ps : list Z) (u : vec) : vec := mkvec (vset0 (vd u) ps) (vf u).
+
+Lemma length_vset0 u ps : length (vset0 u ps) = length u.
+Proof. apply length_vtab. Qed.
+
+Lemma vget_vset0 u ps a : (a < length u)%nat ->
+  vget (vset0 u ps) a = if existsb (Z.eqb (Z.of_nat a)) ps then c0 else vget u a.
+Proof. intros H. unfold vset0. rewrite vget_vtab by exact H. reflexivity. Qed.
+
+Definition nullslice : idx := ISlice None None None.
+
+Lemma idx_null_eq ix : idx_null ix = true -> ix = nullslice.
+Proof. destruct ix as [|[|] [|] [|]|]; cbn; try discriminate. reflexivity. Qed.
+
+Lemma set_loop_rows i ps n ul vl : idx_null i = false -> idx_pos n i = Ok ps -> vlens n ul -> length ul = length vl ->
+  set_loop i nullslice ul vl = (map (set0v ps) ul, vl, None).
+Proof.
+  intros Hn Ei. revert vl. induction ul as [|u ul IH]; intros [|v vl] F L; cbn in L; try discriminate; [reflexivity|].
+  apply Forall_cons_iff in F as [Lu F]. cbn [set_loop]. unfold vec_set0 at 1. rewrite Hn, Lu, Ei.
+  cbn [vec_set0 idx_null nullslice]. rewrite IH by (auto; lia). reflexivity.
+Qed.
+
+Lemma set_loop_cols j ps n ul vl : idx_null j = false -> idx_pos n j = Ok ps -> vlens n vl -> length ul = length vl ->
+  set_loop nullslice j ul vl = (ul, map (set0v ps) vl, None).
+Proof.
+  intros Hn Ej. revert vl. induction ul as [|u ul IH]; intros [|v vl] F L; cbn in L; try discriminate; [reflexivity|].
+  apply Forall_cons_iff in F as [Lv F]. cbn [set_loop]. cbn [vec_set0 idx_null nullslice]. unfold vec_set0. rewrite Hn, Lv, Ej.
+  rewrite IH by (auto; lia). reflexivity.
+Qed.
+
+Lemma psumf_const0 ul vl : psumf (fun _ _ => c0) ul vl = c0.
+Proof. unfold psumf. apply csum_map_0. Qed.
+
+Lemma set_refines c d i j v d' e : wf c -> R c d -> dset d i j v = Some (d', e) ->
+  exists c', setitem c i j v = (c', e) /\ wf c' /\ R c' d'.
+Proof.
+  intros W Rc. pose proof Rc as [Eu [Ev [Ed Fl]]]. unfold dset, setitem.
+  destruct (cis0 v); cbn [negb].
+  2:{ intros H. injection H as H1 H2. subst d' e. exists c. auto. }
+  destruct (idx_null i) eqn:Ni; destruct (idx_null j) eqn:Nj; cbn [negb andb].
+  - (* [:, :] = 0 *)
+    intros H. injection H as H1 H2. subst d' e. eexists. split; [reflexivity|]. split.
+    + constructor; cbn; auto; try constructor. intros w [[]|[]].
+    + unfold R, todense. cbn [us vs ulen vlen cplx dr dc dmat dflag combine fold_left]. unfold nrow, ncol. rewrite Eu, Ev. auto.
+  - (* [:, j] = 0 *)
+    destruct (idx_pos (dc d) j) as [ps|] eqn:Ej; [|discriminate]. intros H. injection H as H1 H2. subst d' e.
+    rewrite (idx_null_eq i Ni). rewrite (set_loop_cols j ps (vlen c) (us c) (vs c) Nj); auto.
+    2:{ rewrite Ev; exact Ej. } 2:{ apply (wf_v _ W). } 2:{ apply (wf_len _ W). }
+    eexists. split; [reflexivity|].
+    assert (W' : wf (mkcar (us c) (map (set0v ps) (vs c)) (ulen c) (vlen c) (cplx c))).
+    { constructor; cbn [us vs ulen vlen cplx].
+      - rewrite map_length. apply (wf_len _ W).
+      - apply (wf_u _ W).
+      - unfold set0v. apply vlens_mkvec; [|apply (wf_v _ W)]. intros w E. unfold zlen in *. rewrite length_vset0. exact E.
+      - intros w [Hin|Hin] Hf; [apply (wf_f _ W w (or_introl Hin) Hf)|].
+        apply in_map_iff in Hin as [w0 [<- Hin]]. apply (wf_f _ W w0 (or_intror Hin) Hf). }
+    split; [exact W'|].
+    apply (R_intro _ _ (fun a b => if existsb (Z.eqb (Z.of_nat b)) ps then c0 else mget (dmat d) a b));
+      cbn [us vs ulen vlen cplx dr dc dmat dflag]; auto.
+    intros a b Ha Hb. unfold ncol in Hb. cbn [dc] in Hb. unfold psum. rewrite psumf_map_r.
+    rewrite (psumf_ext _ (fun u w => if existsb (Z.eqb (Z.of_nat b)) ps then c0 else ent a b u w)).
+    + destruct (existsb (Z.eqb (Z.of_nat b)) ps); [apply psumf_const0 | symmetry; apply (R_mget c d _ _ W Rc)].
+    + intros u w _ Hw. unfold ent, set0v. cbn [vd].
+      rewrite vget_vset0 by (rewrite (in_vlens _ _ _ (wf_v _ W) Hw), Ev; exact Hb).
+      destruct (existsb (Z.eqb (Z.of_nat b)) ps); [ring | reflexivity].
+  - (* [i, :] = 0 *)
+    destruct (idx_pos (dr d) i) as [ps|] eqn:Ei; [|discriminate]. intros H. injection H as H1 H2. subst d' e.
+    rewrite (idx_null_eq j Nj). rewrite (set_loop_rows i ps (ulen c) (us c) (vs c) Ni); auto.
+    2:{ rewrite Eu; exact Ei. } 2:{ apply (wf_u _ W). } 2:{ apply (wf_len _ W). }
+    eexists. split; [reflexivity|].
+    assert (W' : wf (mkcar (map (set0v ps) (us c)) (vs c) (ulen c) (vlen c) (cplx c))).
+    { constructor; cbn [us vs ulen vlen cplx].
+      - rewrite map_length. apply (wf_len _ W).
+      - unfold set0v. apply vlens_mkvec; [|apply (wf_u _ W)]. intros w E. unfold zlen in *. rewrite length_vset0. exact E.
+      - apply (wf_v _ W).
+      - intros w [Hin|Hin] Hf; [|apply (wf_f _ W w (or_intror Hin) Hf)].
+        apply in_map_iff in Hin as [w0 [<- Hin]]. apply (wf_f _ W w0 (or_introl Hin) Hf). }
+    split; [exact W'|].
+    apply (R_intro _ _ (fun a b => if existsb (Z.eqb (Z.of_nat a)) ps then c0 else mget (dmat d) a b));
+      cbn [us vs ulen vlen cplx dr dc dmat dflag]; auto.
+    intros a b Ha Hb. unfold nrow in Ha. cbn [dr] in Ha. unfold psum. rewrite psumf_map_l.
+    rewrite (psumf_ext _ (fun u w => if existsb (Z.eqb (Z.of_nat a)) ps then c0 else ent a b u w)).
+    + destruct (existsb (Z.eqb (Z.of_nat a)) ps); [apply psumf_const0 | symmetry; apply (R_mget c d _ _ W Rc)].
+    + intros u w Hu _. unfold ent, set0v. cbn [vd].
+      rewrite vget_vset0 by (rewrite (in_vlens _ _ _ (wf_u _ W) Hu), Eu; exact Ha).
+      destruct (existsb (Z.eqb (Z.of_nat a)) ps); [ring | reflexivity].
+  - (* neither subscript is the null slice *)
+    intros H. injection H as H1 H2. subst d' e. exists c. auto.
+Qed.
+
+(* ------------------------------------------------------------------ stores, steps, programs *)
+Definition wfs (s : store) : Prop := Forall wf s.
+Definition Rs (s : store) (ds : dstore) : Prop := Forall2 R s ds.
+
+Lemma Rs_nth s ds n d : Rs s ds -> wfs s -> nth_error ds n = Some d ->
+  exists c, get_slot s n = Ok c /\ wf c /\ R c d.
+Proof.
+  intros HR. revert n. induction HR as [|c0' d0 s ds R0 HR IH]; intros n HW H.
+  - destruct n; discriminate.
+  - apply Forall_cons_iff in HW as [W0 HW]. destruct n as [|n]; cbn in H.
+    + injection H as <-. exists c0'. unfold get_slot. cbn. auto.
+    + destruct (IH n HW H) as [c [E [W Rc]]]. exists c. unfold get_slot in *. cbn. auto.
+Qed.
+
+Lemma set_slot_Rs s ds n c d : Rs s ds -> R c d -> Rs (set_slot s n c) (dset_slot ds n d).
+Proof.
+  intros HR Rc. revert n. induction HR as [|c0' d0 s ds R0 HR IH]; intros n.
+  - cbn. destruct n; constructor; auto; constructor.
+  - destruct n as [|n]; cbn; constructor; auto. apply IH.
+Qed.
+
+Lemma set_slot_wfs s n c : wfs s -> wf c -> wfs (set_slot s n c).
+Proof.
+  intros HW W. revert n. induction HW as [|c0' s W0 HW IH]; intros n.
+  - cbn. destruct n; constructor; auto; constructor.
+  - destruct n as [|n]; cbn; constructor; auto. apply IH.
+Qed.
+
+Lemma bind_refines s ds dst r r' : wfs s -> Rs s ds -> Rres r r' ->
+  wfs (fst (bind_out s dst r)) /\ Rs (fst (bind_out s dst r)) (fst (dbind ds dst r')) /\
+  Rres (snd (bind_out s dst r)) (snd (dbind ds dst r')).
+Proof.
+  intros HW HR Hr. destruct r as [o|e], r' as [o'|e']; cbn [Rres] in Hr; try contradiction.
+  - destruct o' as [dd|o']; destruct o as [cc|? ?|? ?|? ? ? ?|? ? ?|]; cbn [Rout out_le] in Hr; try contradiction; cbn [bind_out dbind fst snd];
+      try (splits; auto; fail).
+    destruct Hr as [W Rc]. splits; [apply set_slot_wfs | apply set_slot_Rs | cbn]; auto.
+  - subst. cbn. auto.
+Qed.
+
+Lemma arg_refines s ds b x : wfs s -> Rs s ds -> darg_of ds b = Some x ->
+  exists x', arg_operand s b = Ok x' /\ Rarg x' x.
+Proof.
+  intros HW HR. destruct b as [sx f|v f|nr nc m f|n]; cbn [darg_of arg_operand].
+  - intros H. injection H as <-. eexists. split; [reflexivity | cbn; auto].
+  - intros H. injection H as <-. eexists. split; [reflexivity | cbn; auto].
+  - intros H. injection H as <-. eexists. split; [reflexivity | cbn; auto].
+  - destruct (nth_error ds n) as [od|] eqn:E; [|discriminate]. intros H. injection H as <-.
+    destruct (Rs_nth s ds n od HR HW E) as [o [Eo [Wo Ro]]]. rewrite Eo. eexists. split; [reflexivity | cbn; auto].
+Qed.
+
+Ltac use_bind HW HR Hr dst :=
+  let B := fresh "B" in
+  pose proof (bind_refines _ _ dst _ _ HW HR Hr) as B;
+  match type of B with
+  | wfs (fst ?p) /\ Rs (fst ?p) (fst ?q) /\ Rres (snd ?p) (snd ?q) =>
+    destruct p as [s1 r1]; destruct q as [ds1 r1']; cbn [fst snd] in B; destruct B as [B1 [B2 B3]]
+  end.
+
+Lemma step_refines o s ds ds' r' : wfs s -> Rs s ds -> dstep o ds = Some (ds', r') ->
+  exists s' r, step o s = (s', r) /\ wfs s' /\ Rs s' ds' /\ Rres r r'.
+Proof.
+  intros HW HR. destruct o as [dst u v r cn|tgt u v fac|k dst src|tgt src|tgt src|k dst a b|dst a x f|dst a x f|a|a k|dst a i j|tgt i j v];
+    cbn [dstep step].
+  - (* new *)
+    destruct (dadd_dyad (dzero r cn) u v None) as [d|] eqn:E; [|discriminate]. intros H. injection H as <- <-.
+    destruct (new_refines u v r cn d E) as [c' [E' [W' R']]]. rewrite E'. cbn [lift bind_out].
+    eexists _, _. split; [reflexivity|]. splits; [apply set_slot_wfs | apply set_slot_Rs | cbn]; auto.
+  - (* add_dyad *)
+    destruct (nth_error ds tgt) as [d|] eqn:En; [|discriminate].
+    destruct (dadd_dyad d u v fac) as [d'|] eqn:E; [|discriminate]. intros H. injection H as <- <-.
+    destruct (Rs_nth s ds tgt d HR HW En) as [c [Ec [W Rc]]]. rewrite Ec.
+    destruct (add_dyad_refines c d u v fac d' W Rc E) as [c' [E' [W' R']]]. rewrite E'. unfold bind_inplace. cbn [fst snd].
+    eexists _, _. split; [reflexivity|]. splits; [apply set_slot_wfs | apply set_slot_Rs | cbn]; auto.
+  - (* unary *)
+    destruct (nth_error ds src) as [d|] eqn:En; [|discriminate]. intros H. injection H as <- <-.
+    destruct (Rs_nth s ds src d HR HW En) as [c [Ec [W Rc]]]. rewrite Ec.
+    destruct (un_refines k c d W Rc) as [c' [E' [W' R']]]. rewrite E'. cbn [lift bind_out].
+    eexists _, _. split; [reflexivity|]. splits; [apply set_slot_wfs | apply set_slot_Rs | cbn]; auto.
+  - (* += *)
+    destruct (nth_error ds tgt) as [d|] eqn:En; [|discriminate]. destruct (nth_error ds src) as [od|] eqn:Eo; [|discriminate].
+    destruct (diadd false d od) as [d'|] eqn:E; [|discriminate]. intros H. injection H as <- <-.
+    destruct (Rs_nth s ds tgt d HR HW En) as [c [Ec [W Rc]]]. destruct (Rs_nth s ds src od HR HW Eo) as [o [Eco [Wo Ro]]].
+    rewrite Ec, Eco.
+    destruct (iadd_refines false c o d od d' W Wo Rc Ro E) as [c' [E' [W' R']]]. cbn beta iota in E'. rewrite E'.
+    unfold bind_inplace. cbn [fst snd].
+    eexists _, _. split; [reflexivity|]. splits; [apply set_slot_wfs | apply set_slot_Rs | cbn]; auto.
+  - (* -= *)
+    destruct (nth_error ds tgt) as [d|] eqn:En; [|discriminate]. destruct (nth_error ds src) as [od|] eqn:Eo; [|discriminate].
+    destruct (diadd true d od) as [d'|] eqn:E; [|discriminate]. intros H. injection H as <- <-.
+    destruct (Rs_nth s ds tgt d HR HW En) as [c [Ec [W Rc]]]. destruct (Rs_nth s ds src od HR HW Eo) as [o [Eco [Wo Ro]]].
+    rewrite Ec, Eco.
+    destruct (iadd_refines true c o d od d' W Wo Rc Ro E) as [c' [E' [W' R']]]. cbn beta iota in E'. rewrite E'.
+    unfold bind_inplace. cbn [fst snd].
+    eexists _, _. split; [reflexivity|]. splits; [apply set_slot_wfs | apply set_slot_Rs | cbn]; auto.
+  - (* binary *)
+    destruct (nth_error ds a) as [d|] eqn:En; [|discriminate]. destruct (darg_of ds b) as [x|] eqn:Ex; [|discriminate].
+    destruct (dbin k d x) as [rb|] eqn:E; [|discriminate]. intros H. injection H as H.
+    destruct (Rs_nth s ds a d HR HW En) as [c [Ec [W Rc]]]. rewrite Ec.
+    destruct (arg_refines s ds b x HW HR Ex) as [x' [Ex' Ra]]. rewrite Ex'.
+    pose proof (bin_refines k c d x' x rb W Rc Ra E) as Hr.
+    pose proof (bind_refines s ds dst _ _ HW HR Hr) as [B1 [B2 B3]]. rewrite H in B2, B3.
+    eexists _, _. split; [apply surjective_pairing|]. cbn [fst snd] in *. auto.
+  - (* mul *)
+    destruct (nth_error ds a) as [d|] eqn:En; [|discriminate]. intros H. injection H as <- <-.
+    destruct (Rs_nth s ds a d HR HW En) as [c [Ec [W Rc]]]. rewrite Ec.
+    destruct (mul_refines c d x f W Rc) as [c' [E' [W' R']]]. rewrite E'. cbn [lift bind_out].
+    eexists _, _. split; [reflexivity|]. splits; [apply set_slot_wfs | apply set_slot_Rs | cbn]; auto.
+  - (* rmul *)
+    destruct (nth_error ds a) as [d|] eqn:En; [|discriminate]. intros H. injection H as <- <-.
+    destruct (Rs_nth s ds a d HR HW En) as [c [Ec [W Rc]]]. rewrite Ec.
+    destruct (rmul_refines c d x f W Rc) as [c' [E' [W' R']]]. rewrite E'. cbn [lift bind_out].
+    eexists _, _. split; [reflexivity|]. splits; [apply set_slot_wfs | apply set_slot_Rs | cbn]; auto.
+  - (* todense *)
+    destruct (nth_error ds a) as [d|] eqn:En; [|discriminate]. intros H. injection H as <- <-.
+    destruct (Rs_nth s ds a d HR HW En) as [c [Ec [W Rc]]]. rewrite Ec. destruct Rc as [Eu [Ev [Ed Fl]]].
+    eexists _, _. split; [reflexivity|]. splits; auto. cbn. rewrite Eu, Ev, Ed. auto.
+  - (* diagonal *)
+    destruct (nth_error ds a) as [d|] eqn:En; [|discriminate]. intros H. injection H as <- <-.
+    destruct (Rs_nth s ds a d HR HW En) as [c [Ec [W Rc]]]. rewrite Ec.
+    eexists _, _. split; [reflexivity|]. splits; auto. cbn [Rres Rout].
+    pose proof (diag_refines c d k W Rc) as Hd. destruct (diagonal c k); cbn in Hd |- *; auto; contradiction.
+  - (* getitem *)
+    destruct (nth_error ds a) as [d|] eqn:En; [|discriminate].
+    destruct (dget d i j) as [rb|] eqn:E; [|discriminate]. intros H. injection H as H.
+    destruct (Rs_nth s ds a d HR HW En) as [c [Ec [W Rc]]]. rewrite Ec.
+    pose proof (get_refines c d i j rb W Rc E) as Hr.
+    pose proof (bind_refines s ds dst _ _ HW HR Hr) as [B1 [B2 B3]]. rewrite H in B2, B3.
+    eexists _, _. split; [apply surjective_pairing|]. cbn [fst snd] in *. auto.
+  - (* setitem *)
+    destruct (nth_error ds tgt) as [d|] eqn:En; [|discriminate].
+    destruct (dset d i j v) as [[d' e]|] eqn:E; [|discriminate].
+    destruct (Rs_nth s ds tgt d HR HW En) as [c [Ec [W Rc]]]. rewrite Ec.
+    destruct (set_refines c d i j v d' e W Rc E) as [c' [E' [W' R']]]. rewrite E'. unfold bind_inplace. cbn [fst snd].
+    destruct e as [e|]; intros H; injection H as <- <-;
+      (eexists _, _; split; [reflexivity|]; splits; [apply set_slot_wfs | apply set_slot_Rs | cbn]; auto).
+Qed.
+
+Theorem program_refines p : forall s ds ds' rs', wfs s -> Rs s ds -> drun p ds = Some (ds', rs') ->
+  exists s' rs, run p s = (s', rs) /\ wfs s' /\ Rs s' ds' /\ Forall2 Rres rs rs'.
+Proof.
+  induction p as [|o p IH]; intros s ds ds' rs' HW HR H; cbn [drun run] in *.
+  - injection H as <- <-. eexists _, _. split; [reflexivity|]. splits; auto.
+  - destruct (dstep o ds) as [[ds1 r1']|] eqn:E1; [|discriminate].
+    destruct (drun p ds1) as [[ds2 rs2']|] eqn:E2; [|discriminate]. injection H as <- <-.
+    destruct (step_refines o s ds ds1 r1' HW HR E1) as [s1 [r1 [Es [W1 [R1 Hr1]]]]].
+    destruct (IH s1 ds1 ds2 rs2' W1 R1 E2) as [s2 [rs2 [Er [W2 [R2 Hrs]]]]].
+    rewrite Es, Er. eexists _, _. split; [reflexivity|]. splits; auto.
+Qed.
+
+(* ------------------------------------------------------------------ value semantics of the model *)
+Definition writes (o : op) : option nat :=
+  match o with
+  | ONew dst _ _ _ _ | OUn _ dst _ | OBin _ dst _ _ | OMul dst _ _ _ | ORmul dst _ _ _ | OGet dst _ _ _ => Some dst
+  | OAddDyad tgt _ _ _ | OIadd tgt _ | OIsub tgt _ | OSet tgt _ _ _ => Some tgt
+  | OTodense _ | ODiag _ _ => None
+  end.
+
+Lemma set_slot_other s m c n : n <> m -> (n < length s)%nat -> nth_error (set_slot s m c) n = nth_error s n.
+Proof.
+  revert m n. induction s as [|x s IH]; intros m n Hne Hl; cbn in Hl; [lia|].
+  destruct m as [|m], n as [|n]; cbn; try reflexivity; try lia. apply IH; lia.
+Qed.
+
+Lemma bind_out_other s dst r n : n <> dst -> (n < length s)%nat -> nth_error (fst (bind_out s dst r)) n = nth_error s n.
+Proof.
+  intros Hne Hl. destruct r as [[c| | | | |]|e]; cbn [bind_out fst]; try reflexivity. apply set_slot_other; assumption.
+Qed.
+
+Lemma step_frame o s n : writes o <> Some n -> (n < length s)%nat -> nth_error (fst (step o s)) n = nth_error s n.
+Proof.
+  intros Hw Hl.
+  destruct o as [dst u v r cn|tgt u v fac|k dst src|tgt src|tgt src|k dst a b|dst a x f|dst a x f|a|a k|dst a i j|tgt i j v];
+    cbn [writes] in Hw; cbn [step];
+    repeat match goal with
+           | |- context [match get_slot ?s ?k with _ => _ end] => destruct (get_slot s k)
+           | |- context [match arg_operand ?s ?k with _ => _ end] => destruct (arg_operand s k)
+           end; cbn [fst]; try reflexivity;
+    try (apply bind_out_other; [congruence | assumption]);
+    try (unfold bind_inplace; cbn [fst]; apply set_slot_other; [congruence | assumption]).
+Qed.
